@@ -1,5 +1,7 @@
 import EinoV.Basic.JsonUtil
 import EinoV.Model.C17
+import EinoV.Model.C17Late
+import EinoV.Model.C17Utils
 import EinoV.Expected.C17
 
 /-
@@ -8,8 +10,24 @@ import EinoV.Expected.C17
   {"assistant":bool,
    "tools":[{"name":s,"kind":"inv|str|both|none","tag":s,"diverge":bool}],
    "handler":bool,
-   "calls":[{"id":s,"name":s,"args":s,"fault":"none|err|panic","fid":n,"cuts":[n..],"empty":bool}],
-   "sigma":[n..], "mode":"invoke|stream", "host":"standalone|graph|graphConcat", "sched":[n..]}
+   "calls":[{"id":s,"name":s,"args":s,"fault":"none|err|panic","fid":n,"cuts":[n..],"empty":bool,
+             "late":bool,"hold":n,"onDone":"fail|stop|ignore"}],
+   "sigma":[n..], "mode":"invoke|stream", "host":"standalone|graph|graphConcat", "sched":[n..],
+   "prod":[n..], "cancelAfter":n?}
+
+  Family `utils` (Model/C17Utils.lean): a tool of kind "uinv" / "ustr" ("req":"val|ptr|map")
+  is built by the constructors of components/tool/utils over the request {a string, n int,
+  u string}; the arguments of a call naming it are a JSON object with any of these fields.
+  Its function answers {"r":"<tag>|a=<a>|n=<n>|u=<u>"} from the decoded request ("ustr": that
+  text as two chunks {"r":"<first half>"}{"r":"<second half>"}), and fails with the error of
+  the call when a = "boom".  "prior" = the calls of an earlier message sent through the same
+  node; "overlap" = all calls of the message are inside their tools before the first returns.
+
+  Family `late` (Model/C17Late.lean): a call with "late" has its streamable form send only
+  the first `hold` chunks before StreamableRun returns and the others afterwards, one per
+  step of the production script `prod`, looking at its context before each (`onDone`: what
+  it does on finding it done); `cancelAfter` = the caller cancels after that many steps of
+  the script (absent: never).  Only the streamed form is affected.
 
   A tool's behaviour on an argument string is looked up by the call carrying that argument
   (argument strings are unique per call position: they start with the position):
@@ -27,6 +45,7 @@ structure CallSpec where
   fid : Nat
   cuts : List Nat
   empty : Bool
+  pace : Option Pace
 
 def cutList (cs : List Char) : List Nat → List (List Char)
   | [] => [cs]
@@ -54,19 +73,61 @@ def strFn (specs : List CallSpec) (outp : String → String) : String → Out (L
     else if sp.fault == "panic" then .panic sp.fid
     else .ok (chunksOf (outp a) sp)
 
-def mkTool (specs : List CallSpec) (j : Json) : JE (String × Tool) := do
+/-- the fields a JSON argument string carries (anything else: none) -/
+def parseArgs (s : String) : Args :=
+  match Json.parse s with
+  | .error _ => ⟨none, none, none⟩
+  | .ok j =>
+    let str (k : String) : Option String := match j.getObjVal? k with
+      | .ok (.str v) => some v
+      | _ => none
+    let nat (k : String) : Option Nat := match j.getObjVal? k with
+      | .ok v => v.getNat?.toOption
+      | _ => none
+    ⟨str "a", nat "n", str "u"⟩
+
+def utilsText (tag : String) (r : Req) : String :=
+  tag ++ "|a=" ++ r.a ++ "|n=" ++ toString r.n ++ "|u=" ++ r.u
+
+def utilsJson (t : String) : String := "{\"r\":\"" ++ t ++ "\"}"
+
+/-- the user's function of a utils-built tool; `fidOf r` = the error id of the (first) call
+    whose arguments decode to `r` -/
+def mkUTool (specs : List CallSpec) (kind req tag : String) : UTool :=
+  let fidOf (r : Req) : Nat :=
+    match specs.find? (fun sp => decodeFresh (parseArgs sp.call.args) == r) with
+    | some sp => sp.fid
+    | none => 0
+  let rk : ReqKind := if req == "ptr" then .ptr else if req == "map" then .map else .val
+  let inv : Req → Out String := fun r =>
+    if r.a == "boom" then .err (.user (fidOf r)) else .ok (utilsJson (utilsText tag r))
+  let str : Req → Out (List String) := fun r =>
+    if r.a == "boom" then .err (.user (fidOf r)) else
+      let cs := (utilsText tag r).toList
+      let h := cs.length / 2
+      .ok [utilsJson (String.ofList (cs.take h)), utilsJson (String.ofList (cs.drop h))]
+  ⟨rk, if kind == "uinv" then some inv else none, if kind == "ustr" then some str else none⟩
+
+def mkTool (specs : List CallSpec) (j : Json) : JE (String × MixedTool) := do
   let name ← J.str j "name"
   let kind ← J.str j "kind"
   let tag ← J.str j "tag"
+  if kind == "uinv" || kind == "ustr" then
+    return (name, .inr (mkUTool specs kind (J.strD j "req" "val") tag))
   let diverge := J.boolD j "diverge" false
   let outI := fun a => tag ++ "(" ++ a ++ ")"
   let outS := fun a => (if diverge then "S" else "") ++ tag ++ "(" ++ a ++ ")"
   let inv := if kind == "inv" || kind == "both" then some (invFn specs outI) else none
   let str := if kind == "str" || kind == "both" then some (strFn specs outS) else none
-  pure (name, ⟨inv, str⟩)
+  pure (name, .inl ⟨inv, str⟩)
+
+def onDoneOf (s : String) : OnDone :=
+  if s == "stop" then .stop else if s == "ignore" then .ignore else .fail
 
 def parseCall (j : Json) : JE CallSpec := do
-  pure { call := ⟨← J.str j "id", ← J.str j "name", ← J.str j "args"⟩,
+  pure { pace := if J.boolD j "late" false
+                 then some ⟨J.natD j "hold" 0, onDoneOf (J.strD j "onDone" "fail")⟩ else none,
+         call := ⟨← J.str j "id", ← J.str j "name", ← J.str j "args"⟩,
          fault := J.strD j "fault" "none", fid := J.natD j "fid" 0,
          cuts := (J.arrD j "cuts").filterMap (fun a => a.getNat?.toOption),
          empty := J.boolD j "empty" false }
@@ -103,7 +164,12 @@ def cerrJson : CErr → Json
 def handle (c : Json) : JE Json := do
   let F := Expected.C17.facts
   let specs ← (← J.arr c "calls").mapM parseCall
-  let tools ← (← J.arr c "tools").mapM (mkTool specs)
+  let priorSpecs ← (J.arrD c "prior").mapM parseCall
+  let sigma0 := (J.arrD c "sigma").filterMap (fun a => a.getNat?.toOption)
+  let mixed ← (← J.arr c "tools").mapM (mkTool specs)
+  -- the decode order of the overlapping calls is not observable; with the shipped facts the
+  -- result does not depend on it (Props/C17.lean utils_history_irrelevant)
+  let tools := mixedTools Expected.C17.ufacts parseArgs (priorSpecs.map (·.call)) (specs.map (·.call)) sigma0 mixed
   let handler : Option Handler :=
     if J.boolD c "handler" false then
       some (fun name => invFn specs (fun a => "H:" ++ name ++ "(" ++ a ++ ")"))
@@ -122,16 +188,24 @@ def handle (c : Json) : JE Json := do
     | .ok ts => ts.length
     | .error _ => 0
   let seen := fun (i : Nat) => i
+  let paces := fun (i : Nat) => (specs[i]?).bind (·.pace)
+  let prod := (J.arrD c "prod").filterMap (fun a => a.getNat?.toOption)
+  let cancel : Option Nat := match c.getObjVal? "cancelAfter" with
+    | .ok v => v.getNat?.toOption
+    | .error _ => none
   let body :=
     if mode == "stream" then
-      let r := wrap (stream F tools handler assistant calls seen sigma)
-      resJson (fun srcs =>
+      let r := wrap (streamL F Expected.C17.ctxFacts tools handler assistant calls seen sigma paces prod cancel)
+      resJson (fun dl =>
+        let srcs := dl.map chunksOfItems
+        let ctxErrs := (dl.zipIdx.filter fun (its, _) => endsInCtxErr its).map (·.2)
         let perSrc := srcs.zipIdx.map fun (src, i) => J.mkArr (src.map fun ma => msgJson (ma[i]?).join)
         let merged := mergeBy sched srcs
         let coll := match collect merged with
           | .ok l => Json.mkObj [("ok", J.mkArr (l.map msgJson))]
           | .error e => Json.mkObj [("err", cerrJson e)]
-        [("sources", J.mkArr perSrc), ("collected", coll), ("nchunks", (merged.length : Nat))]) r
+        [("sources", J.mkArr perSrc), ("ctxErrs", J.mkNats ctxErrs), ("collected", coll),
+         ("nchunks", (merged.length : Nat))]) r
     else
       let r := wrap (invoke F tools handler assistant calls seen sigma)
       resJson (fun msgs => [("msgs", J.mkArr (msgs.map (fun m => msgJson (some m))))]) r
